@@ -442,6 +442,102 @@ theorem queryPart_qpartOf (args : Args) : queryPart (qpartOf args) = queryOf arg
     intro e; subst e
     exact not_mem_queryOf args hx
 
+/-! #### `urlsplit`'s cleaning leaves a written URI alone -/
+
+def visible (c : Char) : Bool := 32 < c.toNat
+
+theorem cleanUrl_visible (s : Str) (h : ∀ c ∈ s, visible c = true) : cleanUrl s = s := by
+  unfold cleanUrl
+  have h1 : s.dropWhile (fun c => decide (c.toNat ≤ 32)) = s := by
+    cases s with
+    | nil => rfl
+    | cons a t =>
+      have := h a (by simp)
+      simp only [visible, decide_eq_true_eq] at this
+      have hn : ¬ a.toNat ≤ 32 := by omega
+      simp [List.dropWhile, hn]
+  rw [h1]
+  apply List.filter_eq_self.mpr
+  intro c hc
+  have hv := h c hc
+  simp only [visible, decide_eq_true_eq] at hv
+  simp only [ne_eq, decide_eq_true_eq]
+  refine ⟨?_, ?_, ?_⟩ <;> (intro e; subst e; simp at hv)
+
+theorem visible_of_range {c : Char} (h : 33 ≤ c.toNat) : visible c = true := by simp [visible]; omega
+
+theorem schemeCh_visible {c : Char} (h : schemeCh c = true) : visible c = true := by
+  simp only [schemeCh, isLowerCh, isDigit, Bool.or_eq_true, Bool.and_eq_true, decide_eq_true_eq, beq_iff_eq] at h
+  rcases h with (((h | h) | h) | h) | h
+  · exact visible_of_range (by omega)
+  · exact visible_of_range (by omega)
+  all_goals (subst h; decide)
+
+theorem hostChar_visible {c : Char} (h : hostChar c = true) : visible c = true := by
+  simp only [hostChar, isLowerCh, isDigit, Bool.or_eq_true, Bool.and_eq_true, decide_eq_true_eq, beq_iff_eq] at h
+  rcases h with (((((h | h) | h) | h) | h) | h) | h
+  · exact visible_of_range (by omega)
+  · exact visible_of_range (by omega)
+  all_goals (subst h; decide)
+
+theorem qpChar_visible {c : Char} (h : qpChar c = true) : visible c = true := by
+  simp only [qpChar, Bool.or_eq_true, Bool.and_eq_true, decide_eq_true_eq, beq_iff_eq] at h
+  exact visible_of_range (by omega)
+
+theorem decStr_visible (p : Nat) : ∀ c ∈ decStr p, visible c = true := by
+  intro c hc
+  have := decStr_isDigit p c hc
+  simp only [isDigit, Bool.and_eq_true, decide_eq_true_eq] at this
+  exact visible_of_range (by omega)
+
+theorem netlocOf_visible (h : Str) (hok : HostOK h) (p : Option Nat) : ∀ c ∈ netlocOf h p, visible c = true := by
+  intro c hc
+  unfold netlocOf at hc
+  simp only [List.mem_append] at hc
+  rcases hc with hc | hc
+  · split at hc
+    · simp only [List.mem_cons, List.mem_append, List.not_mem_nil, or_false] at hc
+      rcases hc with (rfl | hc) | rfl
+      · decide
+      · exact hostChar_visible (hok.chars c hc)
+      · decide
+    · exact hostChar_visible (hok.chars c hc)
+  · cases p with
+    | none => simp at hc
+    | some q =>
+      simp only [List.mem_cons] at hc
+      rcases hc with rfl | hc
+      · decide
+      · exact decStr_visible q c hc
+
+theorem queryOf_visible (args : Args) : ∀ c ∈ queryOf args, visible c = true := by
+  intro c hm
+  have hq : queryOf args = joinC '&' (args.map pieceOf) := rfl
+  rw [hq] at hm
+  rcases mem_joinC _ _ _ hm with e | ⟨p, hp, hx⟩
+  · subst e; decide
+  · simp only [List.mem_map] at hp
+    obtain ⟨x, _, rfl⟩ := hp
+    rcases pieceOf_chars x c hx with h | h
+    · exact qpChar_visible h
+    · subst h; decide
+
+theorem fromParts_visible (sch h : Str) (p : Option Nat) (args : Args) (hs : SchemeOK sch) (hok : HostOK h) :
+    ∀ c ∈ fromParts sch h p args, visible c = true := by
+  intro c hc
+  unfold fromParts at hc
+  simp only [List.mem_append, List.mem_cons, List.not_mem_nil, or_false] at hc
+  rcases hc with ((hc | hc) | hc) | hc
+  · exact schemeCh_visible (hs.chars c hc)
+  · rcases hc with rfl | rfl | rfl <;> decide
+  · exact netlocOf_visible h hok p c hc
+  · split at hc
+    · simp at hc
+    · simp only [List.mem_cons] at hc
+      rcases hc with rfl | hc
+      · decide
+      · exact queryOf_visible args c hc
+
 theorem parseUri_fromParts (sch h : Str) (p : Option Nat) (args : Args) (hs : SchemeOK sch) (hok : HostOK h)
     (hp : portOK p) (ha : ArgsOK args) :
     parseUri (fromParts sch h p args) = some ⟨sch, some h, some p, [], args⟩ := by
@@ -454,6 +550,8 @@ theorem parseUri_fromParts (sch h : Str) (p : Option Nat) (args : Args) (hs : Sc
     List.all_eq_true.mpr (fun x hx => schemeCh_isSchemeChar (hs.chars x hx))
   have hhead : sch.head?.any isAlphaCh = true := by simp [hct, isAlphaCh, hlow]
   unfold parseUri
+  rw [cleanUrl_visible _ (fromParts_visible sch h p args hs hok)]
+  simp only
   rw [hform, splitFirst_stop ':' sch _ hcolon]
   simp only [hne, hall, hhead, Bool.not_true, Bool.false_eq_true, or_self, if_false]
   rw [splitNetloc_eq h hok p args]
